@@ -1,15 +1,52 @@
 (* C04 for MDCPDP -- padding steps are inert; a row's step does not look at the rest of the batch. Statements only.
-   The model's only window on the batch is [solo i] / [legs0 i]: when [solo i] is false, the raw step lengths come
-   from [legs0 i] (the step lengths of batch row 0), which is what torch.where([B,1], 0, [B]) + scatter_add_ compute. *)
+   The model's only window on the batch is [solo i] / [legs0 i] (the step lengths of batch row 0, which the code before
+   the repair ad2c92d added to every row).  The running code is [repaired] (defects recorded as fixed in
+   known_findings.json); the [as_is] statements at the end are history. *)
 From Coq Require Import ZArith List Bool.
 From RL4CO Require Import Base.Num Base.EnvSig Spec.MultiDepotPD Env.MDCPDP Env.MDCPDPDefs Env.MDCPDPProofs Env.MDCPDPRefuted.
 Import ListNotations.
 Open Scope Z_scope.
 
-(* after a row has finished, for ANY number k of further steps: exactly the current depot e is offered, the row stays
-   finished, the mask does not change, and from the first padding step on the reward is the objective of the episode
-   proper (hence constant in k >= 1).  Under every combination F of repairs, the code as it is included. *)
-Theorem C04_mdcpdp_padding :
+(* after a row has finished, for ANY number k >= 0 of further steps: exactly the current depot e is offered, the row
+   stays finished, the mask does not change, and the reward is the reward of the unpadded episode *)
+Theorem C04_mdcpdp_padding_inert :
+  forall (i : md_inst) (acts : list nat) (k : nat),
+    md_wfb i = true -> (mode i <= 3)%nat ->
+    adm (E:=MDCPDP exact repaired) i acts = true ->
+    (forall p q, acts = p ++ q -> q <> [] -> done (MDCPDP exact repaired) i (run (E:=MDCPDP exact repaired) i p) = false) ->
+    done (MDCPDP exact repaired) i (run (E:=MDCPDP exact repaired) i acts) = true ->
+    let e := depot (run (E:=MDCPDP exact repaired) i acts) in
+    let pad := repeat e k in
+    adm (E:=MDCPDP exact repaired) i (acts ++ pad) = true /\
+    done (MDCPDP exact repaired) i (run (E:=MDCPDP exact repaired) i (acts ++ pad)) = true /\
+    mask (MDCPDP exact repaired) i (run (E:=MDCPDP exact repaired) i (acts ++ pad)) = map (fun j => Nat.eqb j e) (seq 0 (ndep i + nloc i)) /\
+    md_reward exact repaired i (run (E:=MDCPDP exact repaired) i (acts ++ pad)) = md_reward exact repaired i (run (E:=MDCPDP exact repaired) i acts).
+Proof.
+  intros i acts k Hwf Hm Ha Hl Hd. cbv zeta.
+  destruct (md_padding repaired i Hwf (repaired_good i) (repaired_solo i) acts k Ha Hl Hd) as (H1 & H2 & H3 & H4).
+  split; [exact H1|]. split; [exact H2|]. split; [exact H3|].
+  rewrite (md_reward_is_objective repaired i Hwf (repaired_good i) (repaired_solo i) acts Ha Hl Hd (or_introl eq_refl) (repaired_mode_ok i Hm)).
+  destruct k as [|k]; [cbn [repeat]; rewrite app_nil_r; apply (md_reward_is_objective repaired i Hwf (repaired_good i) (repaired_solo i) acts Ha Hl Hd (or_introl eq_refl) (repaired_mode_ok i Hm))|].
+  apply H4; [apply le_n_S, PeanoNat.Nat.le_0_l | exact (repaired_mode_ok i Hm)].
+Qed.
+Print Assumptions C04_mdcpdp_padding_inert.
+
+(* the row's run and admissibility do not depend on whether it is alone, nor on what batch row 0 does; masks never do *)
+Theorem C04_mdcpdp_row_independent :
+  forall (i : md_inst) (so : bool) (l0 : list Z) (acts : list nat),
+    run (E:=MDCPDP exact repaired) (with_batch i so l0) acts = run (E:=MDCPDP exact repaired) i acts /\
+    adm (E:=MDCPDP exact repaired) (with_batch i so l0) acts = adm (E:=MDCPDP exact repaired) i acts.
+Proof. intros i so l0 acts. apply md_run_row_independent. reflexivity. Qed.
+Print Assumptions C04_mdcpdp_row_independent.
+
+Theorem C04_mdcpdp_mask_row_independent :
+  forall (F : mdfix) (i : md_inst) (so : bool) (l0 : list Z) (s : md_st), md_mask F (with_batch i so l0) s = md_mask F i s.
+Proof. exact md_mask_row_independent. Qed.
+Print Assumptions C04_mdcpdp_mask_row_independent.
+
+(* for any subset F of the repairs: masks/done under padding, and from the first padding step on the reward is the
+   objective of the episode proper (this held for the unrepaired code too, on single-depot instances stepped alone) *)
+Theorem C04_mdcpdp_padding_any_repair_set :
   forall (F : mdfix) (i : md_inst) (acts : list nat) (k : nat),
     md_wfb i = true -> md_good F i = true -> solo i || fx_leg F = true ->
     adm (E:=MDCPDP exact F) i acts = true ->
@@ -20,44 +57,12 @@ Theorem C04_mdcpdp_padding :
     adm (E:=MDCPDP exact F) i (acts ++ pad) = true /\
     done (MDCPDP exact F) i (run (E:=MDCPDP exact F) i (acts ++ pad)) = true /\
     mask (MDCPDP exact F) i (run (E:=MDCPDP exact F) i (acts ++ pad)) = map (fun j => Nat.eqb j e) (seq 0 (ndep i + nloc i)) /\
-    ((1 <= k)%nat -> (mode i < 3)%nat ->
+    ((1 <= k)%nat -> md_mode_ok F i = true ->
      md_reward exact F i (run (E:=MDCPDP exact F) i (acts ++ pad)) = spec_objective i acts).
 Proof. intros F i acts k Hwf Hg Hs. exact (md_padding F i Hwf Hg Hs acts k). Qed.
-Print Assumptions C04_mdcpdp_padding.
+Print Assumptions C04_mdcpdp_padding_any_repair_set.
 
-(* with the return-leg repair (or for the open problem) also k = 0: the reward does not depend on the padding at all *)
-Theorem C04_mdcpdp_padding_inert :
-  forall (F : mdfix) (i : md_inst) (acts : list nat) (k : nat),
-    md_wfb i = true -> md_good F i = true -> solo i || fx_leg F = true ->
-    fx_ret F = true \/ opn i = true -> (mode i < 3)%nat ->
-    adm (E:=MDCPDP exact F) i acts = true ->
-    (forall p q, acts = p ++ q -> q <> [] -> done (MDCPDP exact F) i (run (E:=MDCPDP exact F) i p) = false) ->
-    done (MDCPDP exact F) i (run (E:=MDCPDP exact F) i acts) = true ->
-    md_reward exact F i (run (E:=MDCPDP exact F) i (acts ++ repeat (depot (run (E:=MDCPDP exact F) i acts)) k))
-    = md_reward exact F i (run (E:=MDCPDP exact F) i acts).
-Proof.
-  intros F i acts k Hwf Hg Hs Hr Hm Ha Hl Hd. rewrite (md_reward_is_objective F i Hwf Hg Hs acts Ha Hl Hd Hr Hm).
-  destruct k as [|k]; [cbn [repeat]; rewrite app_nil_r; apply (md_reward_is_objective F i Hwf Hg Hs acts Ha Hl Hd Hr Hm)|].
-  destruct (md_padding F i Hwf Hg Hs acts (S k) Ha Hl Hd) as (_ & _ & _ & H). apply H; [apply le_n_S, PeanoNat.Nat.le_0_l | exact Hm].
-Qed.
-Print Assumptions C04_mdcpdp_padding_inert.
-
-(* with the step-length repair fx_leg the row's run and admissibility do not depend on whether it is alone, nor on what
-   batch row 0 does (masks never do, under any F) *)
-Theorem C04_mdcpdp_row_independent :
-  forall (F : mdfix) (i : md_inst) (so : bool) (l0 : list Z) (acts : list nat),
-    fx_leg F = true ->
-    run (E:=MDCPDP exact F) (with_batch i so l0) acts = run (E:=MDCPDP exact F) i acts /\
-    adm (E:=MDCPDP exact F) (with_batch i so l0) acts = adm (E:=MDCPDP exact F) i acts.
-Proof. exact md_run_row_independent. Qed.
-Print Assumptions C04_mdcpdp_row_independent.
-
-Theorem C04_mdcpdp_mask_row_independent :
-  forall (F : mdfix) (i : md_inst) (so : bool) (l0 : list Z) (s : md_st), md_mask F (with_batch i so l0) s = md_mask F i s.
-Proof. exact md_mask_row_independent. Qed.
-Print Assumptions C04_mdcpdp_mask_row_independent.
-
-(* the code as it is: one padding step changes the reward (-7 -> -14) *)
+(* HISTORY ([as_is]): one padding step changed the reward (-7 -> -14) *)
 Theorem C04_mdcpdp_refuted_padding :
   exists i acts, md_wfb i = true /\ md_good as_is i = true /\ adm (E:=MDCPDP exact as_is) i (acts ++ [0%nat]) = true /\ live as_is i acts /\
                  done (MDCPDP exact as_is) i (run (E:=MDCPDP exact as_is) i acts) = true /\
@@ -66,7 +71,7 @@ Theorem C04_mdcpdp_refuted_padding :
 Proof. exact md_padding_refuted. Qed.
 Print Assumptions C04_mdcpdp_refuted_padding.
 
-(* the code as it is: the same row with the same actions gets another reward next to another batch row 0 *)
+(* HISTORY ([as_is]): the same row with the same actions got another reward next to another batch row 0 *)
 Theorem C04_mdcpdp_refuted_row0_lengths :
   exists i l0 acts, md_wfb i = true /\ md_good as_is i = true /\
      md_reward exact as_is (with_batch i true []) (run (E:=MDCPDP exact as_is) (with_batch i true []) acts) = Some (-14) /\
@@ -75,7 +80,7 @@ Proof. exact md_row_independent_refuted. Qed.
 Print Assumptions C04_mdcpdp_refuted_row0_lengths.
 
 Example C04_mdcpdp_nonvacuous :
-  let i := inst 1 2 [1] (line_dist [0; 3; 7]) 0 in
+  let i := with_batch (inst 1 2 [1] (line_dist [0; 3; 7]) 0) false [0; 100; 100; 100; 100] in
   let acts := [0; 1; 2]%nat in
   md_wfb i = true /\ adm (E:=MDCPDP exact repaired) i (acts ++ [0; 0]%nat) = true /\ liveb repaired i acts = true /\
   done (MDCPDP exact repaired) i (run (E:=MDCPDP exact repaired) i acts) = true /\
